@@ -34,6 +34,15 @@ CONSTANTS Templates,    \* sequence of node templates [path, dtype, shape, has, 
           InjHosts,     \* fresh host paths for injecting definitions
           ImpHosts,     \* sequence of [host, form] for imports
           RefKinds,     \* subset of {"inj", "imp"}: reference lines offered
+          Devs,         \* named deviations of the code that are still present (driven by the open findings):
+                        \*   inject_raw      inject_value copies the raw definition text, not the current value
+                        \*   slice_string    a sliced string goes through json.loads
+                        \*   slice_in_mod    `name = {ref}[slice]` cannot work
+                        \*   slice_leftover  slice_value leaves the tail of the slice in node.value_slice
+                        \*   import_empty    an import selecting nothing appends the import node itself
+                        \*   import_declared an imported copy is re-valued from value_raw (None for declarations)
+                        \*   import_reinject an imported copy re-runs the injection of its defining line
+                        \* a deviation that is switched off is replaced by the repaired algorithm
           CopyOnParse,  \* machine: DIP.parse works on copy.deepcopy(self.env)
           Emit
 
@@ -250,11 +259,16 @@ MInject(S, snap, md, ln) ==
   LET rq == MRequest(S, snap, md, ln.src, ln.qk, ln.q) IN
   IF ~rq.ok \/ Len(rq.sel) # 1 THEN Rej(S)                          \* request(ref, count=1)
   ELSE
-  LET r   == rq.sel[1].nd
+  LET r0  == rq.sel[1].nd
+      \* repaired (BaseNode._current_raw): the text of the value the referenced node has now; the definition
+      \* text only while the node has no value
+      r   == IF "inject_raw" \in Devs \/ ~r0.has THEN r0
+             ELSE [r0 EXCEPT !.rhas = TRUE, !.raw = r0.val, !.rawd = VDepth(r0.dtype, r0.shape)]
       S1  == Tag(S, RawTags(r))
       u   == IF ln.unit # "" THEN ln.unit ELSE r.unit               \* if not node.units_raw: take nodes[0].units_raw
       ref == [src |-> ln.src, qk |-> ln.qk, q |-> ln.q]
-      lsl == IF ln.sl = <<>> THEN <<>> ELSE Tail(ln.sl)
+      \* repaired: cast_value clears value_slice once the injected value is cut
+      lsl == IF ln.sl = <<>> \/ "slice_leftover" \notin Devs THEN <<>> ELSE Tail(ln.sl)
   IN
   IF ln.form = "def"
   THEN IF Find(S.nodes, ln.host) # 0 THEN Rej(S1)                   \* (not generated)
@@ -262,7 +276,9 @@ MInject(S, snap, md, ln) ==
        ELSE IF ~r.rhas                                              \* value_raw None: set_value() leaves the value None
        THEN [S1 EXCEPT !.nodes = Append(@, MNode(ln.host, ln.dtype, ln.shape, FALSE, 0, u, FALSE, FALSE,
                                                  FALSE, 0, 0, ref, lsl, ln.sl # <<>>))]
-       ELSE IF ln.sl # <<>> /\ r.dtype = "str" THEN Tag(Rej(S1), {"inject.slice_string"})   \* json.loads(text) raises
+       ELSE IF ln.sl # <<>> /\ r.dtype = "str" /\ "slice_string" \in Devs
+            THEN Tag(Rej(S1), {"inject.slice_string"})               \* json.loads(text) raises
+            \* repaired: a scalar str host slices the text as a Python string (one axis of characters)
        ELSE LET res == MSlice(r.raw, r.rawd, ln.sl) IN
             IF ~res.ok THEN Rej(S1)
             ELSE IF ~DimOk(ResShape(r.dtype, res), ln.shape) THEN Rej(S1)  \* dimension check / "Array value set to scalar node"
@@ -271,6 +287,11 @@ MInject(S, snap, md, ln) ==
                                                       TRUE, r.raw, r.rawd, ref, lsl, ln.sl # <<>>))]
   ELSE \* a modification `host = {ref}[slice] unit`
        IF ~r.rhas THEN MAssignRaw(S1, Find(S1.nodes, ln.host), FALSE, 0, 0, u)  \* set_value() skipped on the mod node
+       ELSE IF ln.sl # <<>> /\ "slice_in_mod" \notin Devs            \* (repaired: cut, then assign)
+            THEN LET res == MSlice(r.raw, r.rawd, ln.sl) IN
+                 IF ~res.ok THEN Rej(S1)
+                 ELSE MAssignRaw(S1, Find(S1.nodes, ln.host), TRUE, ResVal(r.dtype, r.rawd, res),
+                                 IF r.dtype = "str" THEN 1 ELSE res.d, u)
        ELSE IF ln.sl # <<>> THEN Tag(Rej(S1), {"inject.slice_host_is_modification"})
             \* the mod node casts its own slice with dtype str and raises unless one element is left; the target
             \* then casts the WHOLE raw text (its own value_slice, not the modifier's, is looked at)
@@ -284,26 +305,31 @@ MImpFold(S, snap, md, sel, host) ==
   LET c  == sel[1].nd
       p  == host \o sel[1].rel                                      \* name.split('.{') / hierarchy parents, + node.name
       \* node.inject_value(target): the copy still carries the value_ref of its defining line
-      rq == IF c.ref.qk = "" THEN [ok |-> TRUE, sel |-> <<1>>] ELSE MRequest(S, snap, md, c.ref.src, c.ref.qk, c.ref.q)
+      \* (repaired: ImportNode.parse clears value_ref of the copies)
+      rq == IF c.ref.qk = "" \/ "import_reinject" \notin Devs THEN [ok |-> TRUE, sel |-> <<1>>]
+            ELSE MRequest(S, snap, md, c.ref.src, c.ref.qk, c.ref.q)
+      reval == "import_declared" \in Devs \/ ~c.has              \* repaired: set_value() only for copies without value
       j  == Find(S.nodes, p)
   IN
   IF ~rq.ok \/ Len(rq.sel) # 1 THEN Tag(Rej(S), {"import.node_defined_by_injection"})
-  ELSE IF c.lsl # <<>> /\ c.rhas /\ ~LeftCut(c, c.val, VDepth(c.dtype, c.shape)).ok
+  ELSE IF reval /\ c.lsl # <<>> /\ c.rhas /\ ~LeftCut(c, c.val, VDepth(c.dtype, c.shape)).ok
        THEN Tag(Rej(S), {"slice_multi.host_reused"})             \* set_value() -> cast_value() slices the value again
   ELSE IF j # 0
        THEN IF c.dtype # S.nodes[j].dtype THEN Rej(S)
             ELSE MImpFold(Tag(MAssignRaw(S, j, c.rhas, c.raw, c.rawd, c.unit), {"import.target_exists"}),
                           snap, md, Tail(sel), host)
-       ELSE LET c1 == IF c.rhas THEN [c EXCEPT !.path = p,              \* set_value(): cast_value() of the CURRENT value
+       ELSE LET c1 == IF ~reval THEN [c EXCEPT !.path = p, !.ref = IF "import_reinject" \in Devs THEN c.ref ELSE NoRef]
+                      ELSE IF c.rhas THEN [c EXCEPT !.path = p,         \* set_value(): cast_value() of the CURRENT value
                                                  !.val = IF c.lsl # <<>> THEN LeftCut(c, c.val, VDepth(c.dtype, c.shape)).v ELSE c.val,
                                                  !.lsl = IF c.lsl # <<>> THEN Tail(c.lsl) ELSE <<>>]
                       ELSE [c EXCEPT !.path = p, !.has = FALSE]      \* value_raw None -> value None
-                S1 == IF ~c.rhas /\ c.has THEN Tag(S, {"import.source_declared"}) ELSE S
+                S1 == IF reval /\ ~c.rhas /\ c.has THEN Tag(S, {"import.source_declared"}) ELSE S
             IN MImpFold([S1 EXCEPT !.nodes = Append(@, c1)], snap, md, Tail(sel), host)
 
 MImport(S, snap, md, ln) ==
   LET rq == MRequest(S, snap, md, ln.src, ln.qk, ln.q) IN
   IF ~rq.ok THEN Rej(S)
+  ELSE IF rq.sel = <<>> /\ "import_empty" \notin Devs THEN S       \* repaired: the empty list is prepended, nothing added
   ELSE IF rq.sel = <<>>
        \* nothing is re-queued: the import node itself reaches set_value() and is appended with value None
        THEN Tag([S EXCEPT !.nodes = Append(@, MNode(ln.host \o <<"{import}">>, "import", <<>>, FALSE, 0, "", FALSE, FALSE,
